@@ -28,6 +28,9 @@ EXPL = (
     'copies the class defaults. Not decided: equality of trajectories.')
 
 PARTS = ['processes', 'topology', 'steps', 'flow', 'state']
+USER_CALLBACKS = {'ports_schema', 'initial_state', 'next_update',
+                  'generate_processes', 'generate_steps',
+                  'generate_topology', 'generate_flow'}
 FRESH, SHALLOW, SHARED = 0, 1, 2
 
 
@@ -113,6 +116,9 @@ class Ownership:
                         'deep_merge_combine_lists') and e.args:
                 self.mutate('deep', e, e)
                 return self.ev(e.args[0])
+            if name in USER_CALLBACKS:
+                # results of overridable hooks may be shared objects
+                return Val(SHARED, {'result of %s()' % name})
             # other calls: assumed to return containers they own
             return Val()
         return Val()
@@ -176,6 +182,8 @@ def check(ck):
     r16_2(ck)
     r16_3(ck)
     r16_4(ck)
+    r16_6(ck)
+    r16_7(ck)
 
 
 def r16_1(ck):
@@ -490,3 +498,98 @@ def r16_4(ck):
     ck.require(ok, 'R16.4', c, c.node.name,
                'a composer configuration starts from a deep copy of the '
                'class defaults', None)
+
+
+def r16_6(ck, rule='R16.6'):
+    ck.rule(rule, 'the store entry point keeps empty flow entries: a step '
+            'whose flow entry is [] is recorded and read back as a flow '
+            'step (tests use `is not None`, never truthiness)')
+    gp = ck.fn('Store._generate_paths', 'core.store')
+    cfg = cfg_of(gp.node)
+    hit = False
+    for s2 in A.walk_no_nested(gp.node):
+        if isinstance(s2, ast.Assign) and isinstance(
+                s2.targets[0], ast.Subscript) and A.subscript_key(
+                s2.targets[0]) == '_flow':
+            hit = True
+            g = cfg.guards(cfg.node(s2))
+            v = A.unparse(s2.value)
+            ok = ('isnot', v, 'None') in g and ('truthy', v) not in g
+            ck.require(ok, rule, gp, s2,
+                       "'_flow' is recorded whenever the flow entry is not "
+                       'None',
+                       "'_flow' is recorded only under %s: a step with the "
+                       'flow entry [] is stored without flow and a store '
+                       'built from the composite runs it as a legacy '
+                       'deriver' % sorted(a for a in g if v in str(a)), s2)
+    ck.require(hit, rule, gp, gp.node.name,
+               "_generate_paths records '_flow' on step nodes", None)
+    gf = ck.fn('Store.get_flow', 'core.store')
+    cfg = cfg_of(gf.node)
+    for r in A.walk_no_nested(gf.node):
+        if isinstance(r, ast.Return) and A.unparse(r.value) == 'self.flow':
+            g = cfg.guards(cfg.node(r))
+            ck.require(('isnot', 'self.flow', 'None') in g, rule, gf, r,
+                       'a node returns its flow whenever it is not None',
+                       'get_flow drops empty flow entries', r)
+    for s2 in A.walk_no_nested(gf.node):
+        if isinstance(s2, ast.Assign) and isinstance(
+                s2.targets[0], ast.Subscript) and isinstance(
+                s2.value, ast.Name):
+            g = cfg.guards(cfg.node(s2))
+            nm = s2.value.id
+            ck.require(('isnot', nm, 'None') in g and ('truthy', nm)
+                       not in g, rule, gf, s2,
+                       "a child's flow is kept whenever it is not None",
+                       "get_flow drops a child's empty flow entry", s2)
+    ac = ck.fn('Store._apply_config', 'core.store')
+    cfg = cfg_of(ac.node)
+    for s2 in A.walk_no_nested(ac.node):
+        if isinstance(s2, ast.Assign) and A.unparse(
+                s2.targets[0]) == 'self.flow':
+            g = cfg.guards(cfg.node(s2))
+            bad = {a for a in g if a[0] in ('truthy', 'falsy')
+                   and a[1] == 'flow'}
+            ck.require(not bad, rule, ac, s2,
+                       'the node keeps the flow entry it is configured '
+                       'with, including []', 'a [] flow is not stored on '
+                       'the node', s2)
+
+
+def r16_7(ck):
+    ck.rule('R16.7', 'schema overrides reach exactly the process they '
+            'name: Process.get_schema merges overrides into a deep copy of '
+            'what ports_schema() returned (which may be a shared object), '
+            'and merge_overrides keeps a copy of the override (which may '
+            'be shared between processes)')
+    gs = ck.fn('Process.get_schema', 'core.process')
+    ow = Ownership(ck, gs, 'R16.7')
+    n = 0
+    for kind, stmt, tgt, tv, av, arg in ow.run():
+        n += 1
+        bad = {x for x in tv.shares if x.startswith('result of')}
+        ck.require(not bad, 'R16.7', gs, stmt,
+                   'overrides are merged into a private copy of the ports '
+                   'schema',
+                   'schema overrides are merged into the very object that '
+                   'ports_schema() returned: a process class that returns '
+                   'a shared schema leaks the override of one instance to '
+                   'all the others', stmt)
+    ck.floor('R16.7', n, 2, 'merges in get_schema')
+    mo = ck.fn('Process.merge_overrides', 'core.process')
+    ow = Ownership(ck, mo, 'R16.7')
+    m = 0
+    for kind, stmt, tgt, tv, av, arg in ow.run():
+        if kind != 'deep':
+            continue
+        m += 1
+        bad = av.shares & ow.params
+        ck.require(not bad, 'R16.7', mo, stmt,
+                   'the override kept by the process shares nothing with '
+                   'the one handed in',
+                   'the override handed in (%s) is merged by reference: a '
+                   'composer passes the same dictionaries to every process '
+                   'it generates, so a later override for one composite is '
+                   'written into them and reaches all the others' % sorted(
+                       bad), stmt)
+    ck.floor('R16.7', m, 1, 'merges in merge_overrides')
